@@ -97,4 +97,9 @@ def check(ctx, tier):
     report_raw_access(coh, "C10/E2")
     viewrules.step_propagation(ctx, tk, "C10/E2")
     viewrules.column_units(ctx, tk, "C10/E2")
+    from . import C06
+    n0 = len(ctx.obligations)
+    C06.materialisation_step(ctx, tk, coh)
+    for o in ctx.obligations[n0:]:
+        o.rule = "C10/E2e"
     return {"read_only_entry_points": len(es), "unknown_inplace_targets": len(tk.E.unknown_targets)}
